@@ -29,7 +29,7 @@ def tlaset(xs):
 
 
 # ----------------------------------------------------------------------------- CoseModel: the object life cycle as a state machine
-MODEL_CONSTS = dict(Algs='{"A", "B"}', Keys='{"k1", "k2"}')
+MODEL_CONSTS = dict(Algs='{"A", "B"}', Keys='{"k1", "k2"}', ObjKind='"sign1"')
 MODEL_PROPS = ["C03_Exact", "C04_Agreement", "C01_SignThenVerify", "C19_Atomic", "C20_NoHalfSigned", "C18_ReadOnly"]
 MODEL_INVS = ["C09_RoundTrip", "C02_HeadIrrelevant", "C03_UnprotectedIrrelevant"]
 
@@ -42,19 +42,24 @@ def model_stage(ctx, pid):
     mc(ctx, "CoseModel", cfgtext(invariants=MODEL_INVS, props=MODEL_PROPS, constants=dict(MaxHist=0, Record="FALSE", KidVals="{0}", **mcc),
                                  extra="VIEW View\n"), timeout=1200, heap="8g")
     # (b) behaviours: every behaviour of length 2 (exhaustive) and random longer ones
-    consts = dict(Record="TRUE", KidVals="{0, 1}", **MODEL_CONSTS)
-    cases = gen(ctx, "Gen_Model", cfgtext(invariants=["Emit"], constants=dict(MaxHist=2, **consts)), timeout=1200, heap="8g")
     n, depth = (1500, 9) if ctx.quick() else (20000, 12)      # TLC 1.8 emits about 57 behaviours per requested trace in this mode
-    cases += gen(ctx, "Gen_Model", cfgtext(invariants=["Emit"], constants=dict(MaxHist=depth, **consts)), simulate=max(1, n // 50), depth=depth + 2, seed=ctx.seed, timeout=1200, heap="8g")
-    sim = cases[3300:] if len(cases) > 3300 else []
-    if len(cases) > n + 3300:
-        ctx.notes["model_behaviours_generated"] = len(cases)
-        rnd = random.Random(ctx.seed)
-        cases = cases[:len(cases) - len(sim)] + rnd.sample(sim, n)
-    events = harness(ctx, ["exec", "memflow"], cases)
-    # (c) trace validation
-    jc = "".join("CONSTANT %s = %s\n" % kv for kv in dict(MaxHist=0, Record="FALSE", KidVals="{0, 1}", **MODEL_CONSTS).items())
-    rej = judge(ctx, "Trace_Model", events, per_shard=400, extra_cfg=jc)
+    events, rej = [], {}
+    for okind in ("sign1", "sign1u", "sig"):
+        kc = dict(MODEL_CONSTS, ObjKind='"%s"' % okind)
+        consts = dict(Record="TRUE", KidVals="{0, 1}", **kc)
+        cases = []
+        if okind == "sign1" or not ctx.quick():
+            cases += gen(ctx, "Gen_Model", cfgtext(invariants=["Emit"], constants=dict(MaxHist=2, **consts)), timeout=1200, heap="8g")
+        nk = n if okind == "sign1" else n // 2
+        cases += gen(ctx, "Gen_Model", cfgtext(invariants=["Emit"], constants=dict(MaxHist=depth, **consts)), simulate=max(1, nk // 50), depth=depth + 2, seed=ctx.seed, timeout=1200, heap="8g")
+        ev = harness(ctx, ["exec", "memflow"], cases)
+        # (c) trace validation
+        jc = "".join("CONSTANT %s = %s\n" % kv for kv in dict(MaxHist=0, Record="FALSE", KidVals="{0, 1}", **kc).items())
+        r = judge(ctx, "Trace_Model", ev, per_shard=400, extra_cfg=jc)
+        base = len(events)
+        events += ev
+        for i, x in r.items():
+            rej[base + i] = x
     mine = {}
     other = 0
     for idx, reasons in rej.items():
